@@ -19,6 +19,9 @@
  *                       4 4096 bytes; validret <k> <0|1>: is_result_valid of rule k answers (stamp still current) && <b>;
  *   hexvalues 1         print values as hex ("EMPTY" for length 0), `valid` lines carry the value shown to is_result_valid, inputs of any
  *                       shape are read as (length, hash of bytes).  C++ twin for these lines: capi_twin.cpp (engine_driver has fixed values)
+ *   keykinds            print the table of the BuildKey C API (buildkey.h): one line per public key kind
+ *                       "keykind <kind> ident=<llb_build_key_identifier_for_kind> back=<llb_build_key_kind_for_identifier of it>
+ *                        first=<first byte of a key made by llb_build_key_make_* for that kind | -> getkind=<llb_build_key_get_kind of it | ->"
  * Extra output lines: "status <k> <kind>" (update_status callback), "dbsnap <n>" (copy of the database file after build n
  * in <workdir>/snap-<n>.db, dumped by the Python side), and with env CAPI_TRACE=1 "raw ..." lines carrying the exact bytes
  * of every C call / callback argument.  "BAD-..." lines report a broken pass-through that has no C++ counterpart: a callback
@@ -326,6 +329,36 @@ static void d_error(void* context, const char* message) {
   ev("error %s", t); free(t);
 }
 
+/* ---- BuildKey C API: kind <-> identifier table */
+static void kk_first(void* context, uint8_t* data, size_t count) { *(int*)context = count ? (int)data[0] : -2; }
+static void keykinds(void) {
+  static const int kinds[] = { 0, 1, 2, 3, 4, 5, 6, 7, 8, 10 };
+  const char* filters[] = { "*.o" };
+  for (unsigned i = 0; i < sizeof kinds / sizeof kinds[0]; i++) {
+    llb_build_key_kind_t k = (llb_build_key_kind_t)kinds[i];
+    char id = llb_build_key_identifier_for_kind(k);
+    llb_build_key_kind_t back = llb_build_key_kind_for_identifier(id);
+    llb_build_key_t* key = NULL;
+    switch (kinds[i]) {
+    case 0: key = llb_build_key_make_command("c"); break;
+    case 1: key = llb_build_key_make_custom_task("n", "d"); break;
+    case 2: key = llb_build_key_make_directory_contents("/p"); break;
+    case 3: key = llb_build_key_make_directory_tree_signature("/p", filters, 1); break;
+    case 4: key = llb_build_key_make_node("/p"); break;
+    case 5: key = llb_build_key_make_target("t"); break;
+    case 7: key = llb_build_key_make_directory_tree_structure_signature("/p", filters, 1); break;
+    case 8: key = llb_build_key_make_filtered_directory_contents("/p", filters, 1); break;
+    case 10: key = llb_build_key_make_stat("/p"); break;
+    default: break;
+    }
+    if (key) {
+      int first = -1; llb_build_key_get_key_data(key, &first, kk_first);
+      printf("keykind %d ident=%d back=%d first=%d getkind=%d\n", kinds[i], (int)(unsigned char)id, (int)back, first, (int)llb_build_key_get_kind(key));
+      llb_build_key_destroy(key);
+    } else printf("keykind %d ident=%d back=%d first=- getkind=-\n", kinds[i], (int)(unsigned char)id, (int)back);
+  }
+}
+
 /* ---- scenario */
 static void ints(const char* s, IntList* l) {
   l->n = 0;
@@ -422,6 +455,7 @@ int main(int argc, char** argv) {
     } else if (strcmp(t[0], "set") == 0 && nt >= 3) { int k = atoi(t[1]); if (k >= 0 && k < MAXK) g_env[k] = strtoull(t[2], 0, 10); }
     else if (strcmp(t[0], "force") == 0 && nt >= 3) { int k = atoi(t[1]); if (k >= 0 && k < MAXK) g_force[k] = atoi(t[2]); }
     else if (strcmp(t[0], "idbase") == 0 && nt >= 2) g_idbase = strtoull(t[1], 0, 10);
+    else if (strcmp(t[0], "keykinds") == 0) keykinds();
     else if (strcmp(t[0], "ids") == 0 && nt >= 3) {
       int k = atoi(t[1]); if (k >= 0 && k < MAXK) { g_nids[k] = 0; const char* s = t[2];
         while (*s && g_nids[k] < MAXIDS) { if (*s == ',') { s++; continue; } g_ids[k][g_nids[k]++] = strtoull(s, 0, 10); while (*s && *s != ',') s++; } }
